@@ -14,8 +14,8 @@ pub struct LsCheck {
     pub rule: &'static str,
     pub nontrivial: fn(&Feats) -> bool,
     pub assumptions: &'static [&'static str],
-    /// template cases mixed into the generated ones (one in five)
-    pub scenario: Option<fn(&Profile) -> proptest::strategy::BoxedStrategy<Case>>,
+    /// template cases mixed into the generated ones: (weight per 5000, generator)
+    pub scenarios: Vec<(u32, fn(&Profile) -> proptest::strategy::BoxedStrategy<Case>)>,
 }
 
 fn w(f: impl FnOnce(&mut Weights)) -> Weights {
@@ -57,7 +57,7 @@ pub fn ls_check(id: &str) -> Option<LsCheck> {
             rule: "lock-step cases (config x op sequence) on a parked cache with tight max_cost; non-trivial = the history contains an admission that needed >=1 eviction, or an admission after in-place updates/lowered max_cost had pushed the total over max_cost; distinct by hash of the whole case",
             nontrivial: |f| f.admissions_with_eviction > 0 || f.over_budget_then_admit > 0 || f.max_cost_lowered_then_admit > 0,
             assumptions: &["non-negative costs; cost + internal overhead does not overflow i64", "single-threaded interleavings of client ops with the processor's ready arms (real-thread schedules: stress engine)"],
-            scenario: None,
+            scenarios: vec![],
         },
         "C02" => LsCheck {
             id: "C02",
@@ -79,7 +79,7 @@ pub fn ls_check(id: &str) -> Option<LsCheck> {
             rule: "lock-step cases with removes, clears, evictions, expiries and in-place get_mut writes; non-trivial = a lookup of a key that was removed/evicted/expired/cleared earlier and written again; distinct by case hash",
             nontrivial: |f| f.lookup_after_rewrite > 0,
             assumptions: &["'had taken effect' is read as: the remove's Delete item / the clear was applied by the processor"],
-            scenario: None,
+            scenarios: vec![],
         },
         "C03" => LsCheck {
             id: "C03",
@@ -108,7 +108,7 @@ pub fn ls_check(id: &str) -> Option<LsCheck> {
             rule: "quiescent lock-step cases under a virtual clock, ample capacity in a third of the cases and tight capacity (evictions) in the rest, TTLs from 1ns to 1h, advances aimed at second boundaries and deadlines +-1ns; non-trivial = a lookup within 1s of the key's deadline or within 1ns of a second boundary, or a TTL<->no-TTL re-insert followed by a cleanup tick; distinct by case hash",
             nontrivial: |f| f.ttl_boundary_lookups > 0 || f.ttl_switch_then_tick > 0,
             assumptions: &["time is the virtual clock served to SystemTime::now() (monotone)"],
-            scenario: Some(clear_reuse_scenario),
+            scenarios: vec![(1000, clear_reuse_scenario)],
         },
         "C04" => LsCheck {
             id: "C04",
@@ -131,7 +131,7 @@ pub fn ls_check(id: &str) -> Option<LsCheck> {
             rule: "quiescent lock-step cases with max_cost 2^40 and a 64-slot buffer (never full); every key of the domain is looked up at the end; non-trivial = TTL<->no-TTL re-insert followed by a tick, or a TTL key re-used after clear(), or an update of a key that shares its expiry second with another key; distinct by case hash",
             nontrivial: |f| f.ttl_switch_then_tick > 0 || f.key_reused_after_clear > 0 || f.shared_bucket_updates > 0,
             assumptions: &["quiescent histories only (the property has no schedule quantifier)"],
-            scenario: Some(clear_reuse_scenario),
+            scenarios: vec![(1000, clear_reuse_scenario)],
         },
         "C05" => LsCheck {
             id: "C05",
@@ -158,7 +158,7 @@ pub fn ls_check(id: &str) -> Option<LsCheck> {
             rule: "quiescent lock-step cases with a periodic cleanup (interval 100ms..3s, generated phase) fired on the virtual time line; non-trivial = something was reclaimed and (an update of a key sharing its expiry second with another, or interval > 1s, or a deadline within 1ms of a second boundary); distinct by case hash",
             nontrivial: |f| f.reclaimed > 0 && (f.shared_bucket_updates > 0 || f.long_tick_period || f.boundary_deadlines > 0),
             assumptions: &["'bounded delay' is checked as: gone after the first periodic tick at or after deadline + 1s"],
-            scenario: None,
+            scenarios: vec![],
         },
         "C06" => LsCheck {
             id: "C06",
@@ -180,7 +180,7 @@ pub fn ls_check(id: &str) -> Option<LsCheck> {
             rule: "schedule-mode lock-step cases (processor arms fire only where generated); non-trivial = a remove, update or clear() hit a key with work still buffered; distinct by case hash",
             nontrivial: |f| f.removes_inflight > 0 || f.updates_inflight > 0 || f.clears_with_pending > 0 || f.interposed_same_key > 0,
             assumptions: &["keys have distinct index hashes", "operations that returned Err void the case from that point (precondition of the property)"],
-            scenario: None,
+            scenarios: vec![],
         },
         "C07" => LsCheck {
             id: "C07",
@@ -206,7 +206,7 @@ pub fn ls_check(id: &str) -> Option<LsCheck> {
             rule: "lock-step cases with tight capacity, mixed costs and popularity shaped by lookups through the real ring buffer and the parked policy worker: what the policy decides must be carried out by the processor (room => admitted and nothing evicted; every victim leaves the store and reaches on_evict, also when the newcomer is rejected in a later round; a rejected newcomer reaches on_reject); non-trivial = an admission with eviction or an evict-then-reject decision; distinct by case hash",
             nontrivial: |f| f.admissions_with_eviction > 0 || f.evict_then_reject > 0,
             assumptions: &["which candidates are sampled and how ties break is left to the implementation (the rule itself is checked at policy level by the component engine)"],
-            scenario: None,
+            scenarios: vec![],
         },
         "C08" => LsCheck {
             id: "C08",
@@ -228,12 +228,13 @@ pub fn ls_check(id: &str) -> Option<LsCheck> {
             rule: "lock-step cases with uniquely tagged values and a recording callback; non-trivial = >=1 eviction or rejection and >=1 update/remove of a key with work in flight; distinct by case hash",
             nontrivial: |f| (f.admissions_with_eviction + f.pop_rejections + f.dup_new_rejections + f.oversize_rejections) > 0 && (f.updates_inflight + f.removes_inflight) > 0,
             assumptions: &["get_mut writes are excluded (they overwrite a value in place)", "values accepted before a clear() may be dropped without callback, never reported twice"],
-            scenario: None,
+            scenarios: vec![],
         },
         "C09" => LsCheck {
             id: "C09",
             profile: Profile {
                 name: "conditional-writes",
+                periodic_pct: 30,
                 validators: ALL_VALIDATORS.to_vec(),
                 ttl_pct: 45,
                 w: w(|w| {
@@ -248,7 +249,7 @@ pub fn ls_check(id: &str) -> Option<LsCheck> {
             rule: "lock-step cases over a family of validators (always, never, tag>=, even tag, tag differs); non-trivial = insert_if_present on a key that is absent because it was removed/expired/evicted or is only buffered, or a vetoed insert involving a TTL; distinct by case hash",
             nontrivial: |f| f.iip_absent_interesting > 0 || f.vetoes_ttl > 0,
             assumptions: &["an expired but not yet reclaimed entry counts as physically resident (both outcomes are accepted by the property; the model follows the implementation)"],
-            scenario: None,
+            scenarios: vec![],
         },
         "C10" => LsCheck {
             id: "C10",
@@ -270,7 +271,7 @@ pub fn ls_check(id: &str) -> Option<LsCheck> {
             rule: "schedule-mode lock-step cases in which the real wait() runs (sync: on a helper thread while the interpreter steps the parked processor; async: polled) with work still buffered; wait() Ok must imply that every earlier item was applied (the model then predicts every later lookup and charge exactly); non-trivial = a wait() issued with >=1 item pending; distinct by case hash",
             nontrivial: |f| f.waits_with_pending > 0,
             assumptions: &["one client thread in this engine; races with clear()/close(): stress engine"],
-            scenario: None,
+            scenarios: vec![],
         },
         "C11" => LsCheck {
             id: "C11",
@@ -293,7 +294,7 @@ pub fn ls_check(id: &str) -> Option<LsCheck> {
             rule: "lock-step cases with frequent clear(); non-trivial = clear() called with >=1 item still buffered, or a TTL key re-used after the clear; distinct by case hash",
             nontrivial: |f| f.clears_with_pending > 0 || f.ttl_key_reused_after_clear > 0 || f.interposed > 0,
             assumptions: &["one client thread; concurrent clients: stress engine"],
-            scenario: Some(clear_reuse_scenario),
+            scenarios: vec![(1000, clear_reuse_scenario), (3, big_buffer_clear_scenario)],
         },
         "C15" => LsCheck {
             id: "C15",
@@ -319,7 +320,7 @@ pub fn ls_check(id: &str) -> Option<LsCheck> {
             rule: "lock-step cases with a parked policy worker, buffer_items in {0,1,2,3,5,64}; non-trivial = >=1 flushed batch containing a missed key or >=1 dropped batch; distinct by case hash",
             nontrivial: |f| f.batches_with_miss > 0 || f.batches_dropped > 0,
             assumptions: &["sync: a batch is dropped iff 3 batches are already queued; async: never while open"],
-            scenario: None,
+            scenarios: vec![],
         },
         "C16" => LsCheck {
             id: "C16",
@@ -339,7 +340,7 @@ pub fn ls_check(id: &str) -> Option<LsCheck> {
             rule: "quiescent lock-step cases, explicit and Coster-valued (cost 0) writes, both settings of ignore_internal_cost; non-trivial = an update of a resident key that changes its charge, or a Coster-valued write; distinct by case hash",
             nontrivial: |f| f.cost_changing_updates > 0 || f.coster_writes > 0,
             assumptions: &["default (always) validator"],
-            scenario: None,
+            scenarios: vec![],
         },
         "C17" => LsCheck {
             id: "C17",
@@ -360,7 +361,7 @@ pub fn ls_check(id: &str) -> Option<LsCheck> {
             rule: "lock-step cases with metrics on; non-trivial = (>=1 eviction and >=1 cost-decreasing update) or >=1 dropped set; distinct by case hash",
             nontrivial: |f| (f.admissions_with_eviction > 0 && f.cost_decreasing_updates > 0) || f.dropped_sets > 0,
             assumptions: &["counters compared at every step in the parked engine (every step is a quiescent point of the stripes)"],
-            scenario: None,
+            scenarios: vec![],
         },
         "C18" => LsCheck {
             id: "C18",
@@ -385,7 +386,7 @@ pub fn ls_check(id: &str) -> Option<LsCheck> {
             rule: "lock-step cases whose key builder maps pairs of keys to one index hash with distinct non-zero conflict hashes; non-trivial = an operation on one member of a pair while the other is resident; distinct by case hash",
             nontrivial: |f| f.collide_ops_while_partner_resident > 0,
             assumptions: &["only what the property states: lookups/inserts/removes of one key never read, overwrite or remove the other's value (charge bookkeeping of colliding keys is not part of the property)"],
-            scenario: None,
+            scenarios: vec![],
         },
         _ => return None,
     })
@@ -479,12 +480,40 @@ pub fn failures_for(prop: &str, case: &Case, stats: Option<&Stats>, nontrivial: 
                     *stats.other_pred_failures.lock().entry(fl.pred.to_string()).or_insert(0) += 1;
                 }
             }
-            Ok(rep
+            let mut own: Vec<String> = rep
                 .failures
                 .iter()
                 .filter(|f| f.is_for(prop))
                 .map(|f| format!("[{}] step {}: {}", f.pred, f.step, f.msg))
-                .collect())
+                .collect();
+            // C09, metamorphic: a vetoed write changes nothing about the resident entry, so a
+            // sweep/visibility failure that disappears when the vetoed writes are taken out of the
+            // history was caused by one of them
+            const SWEEP_PREDS: &[&str] = &["tick_evicts_unexpired", "tick_only_expired", "tick_must_reclaim", "entry_lost", "lookup_lost", "served_after_ttl"];
+            if prop == "C09" && own.is_empty() && !rep.vetoed_ops.is_empty() {
+                if let Some(f) = rep.failures.iter().find(|f| SWEEP_PREDS.contains(&f.pred)) {
+                    let mut twin = case.clone();
+                    let mut idx = rep.vetoed_ops.clone();
+                    idx.sort_unstable();
+                    idx.dedup();
+                    for i in idx.into_iter().rev() {
+                        if i < twin.ops.len() {
+                            twin.ops.remove(i);
+                        }
+                    }
+                    if let CaseResult::Ok(rep2) = run_case_caught(&twin, false) {
+                        if !rep2.failures.iter().any(|g| SWEEP_PREDS.contains(&g.pred)) {
+                            own.push(format!(
+                                "[veto_disturbed_entry] step {}: {} - and the same history without its {} vetoed write(s) shows no such failure: a vetoed write changed the entry's expiry bookkeeping",
+                                f.step,
+                                f.msg,
+                                rep.vetoed_ops.len()
+                            ));
+                        }
+                    }
+                }
+            }
+            Ok(own)
         }
     }
 }
@@ -501,13 +530,15 @@ pub fn run_ls_check(chk: &LsCheck, tier: &str, seed: u64, stats: &Stats) -> Chec
     let as_prop: String = std::env::var("VERIF_AS").unwrap_or_else(|_| chk.id.to_string());
     let as_prop: &str = &as_prop;
     let mk = || -> proptest::strategy::BoxedStrategy<Case> {
-        match chk.scenario {
-            None => case_strategy(&chk.profile),
-            Some(f) => {
-                use proptest::prelude::*;
-                prop_oneof![4 => case_strategy(&chk.profile), 1 => f(&chk.profile)].boxed()
-            }
+        if chk.scenarios.is_empty() {
+            return case_strategy(&chk.profile);
         }
+        let used: u32 = chk.scenarios.iter().map(|s| s.0).sum();
+        let mut arms: Vec<(u32, proptest::strategy::BoxedStrategy<Case>)> = vec![(5000u32.saturating_sub(used).max(1), case_strategy(&chk.profile))];
+        for (w, f) in chk.scenarios.iter() {
+            arms.push((*w, f(&chk.profile)));
+        }
+        proptest::strategy::Union::new_weighted(arms).boxed()
     };
     let res = run_prop(mk, n, seed, 16, stats, |case| match failures_for(as_prop, case, Some(stats), chk.nontrivial) {
         Err(h) => {
